@@ -32,6 +32,22 @@ CHECKS["C07"] = ("model_checking", _T,
     "Executions of the real MGM, MGM2 and DSA (variants A, B, C) computations with stop_cycle k in {1,2,3,5} on shapes including isolated "
     "variables and n-ary constraints; TLC checks: no handler raised, quiescence implies every computation reported finished, and each "
     "finished report happens at cycle k (or at start for a computation without neighbour).", _N, "DESIGN.md section 4 C07")
+CHECKS["C01"] = ("model_checking", _T,
+    "Executions of the real DPOP computations on the real pseudo-tree, for TLC-generated DCOPs (chains, stars, cycles, n-ary/unary/parallel constraints, "
+    "isolated variables, several components; own-value costs; min and max), by reference and through the JSON wire format; TLC checks that quiescence implies "
+    "all finished and that the assignment at all-finished is complete and has cost Dcop!Opt.", _N, "DESIGN.md section 4 C01")
+CHECKS["C02"] = ("model_checking", _T,
+    "Executions of the real SyncBB computations on the real ordered graph for TLC-generated binary DCOPs (non-negative and signed costs, min and max, "
+    "variables without constraint); at quiescence every computation has finished and the held values have cost Dcop!Opt.", _N, "DESIGN.md section 4 C02")
+CHECKS["C05"] = ("model_checking", _T,
+    "Executions of the real maxsum (synchronous, run for 3*|nodes|+10 rounds) and amaxsum (to quiescence) computations with damping 0, noise 0, stability 0 on "
+    "tree-shaped factor graphs whose optimum TLC found to be unique; the assignment selected at the end must be that optimum.", _N, "DESIGN.md section 4 C05")
+CHECKS["C09"] = ("model_checking", _T,
+    "Executions of the real DBA computations on TLC-generated CSPs (tables over {0, infinity}); at every step where a computation reports finished TLC evaluates "
+    "all constraints on the values held by all computations.", _N, "DESIGN.md section 4 C09")
+CHECKS["C10"] = ("exploration", _T,
+    "Executions of all shipped algorithms (18 algorithm/parameter configurations) with every value_selection call and every current_value logged as a domain "
+    "index; TLC checks membership at every step.", _N, "DESIGN.md section 4 C10")
 NOT_YET = "check not built yet in this snapshot (work in progress, see DESIGN.md section 9)"
 
 fix_commits = subprocess.run(["git", "-C", "/repo", "log", "--format=%h %s", "aeaae91..HEAD"], capture_output=True, text=True).stdout.splitlines()
